@@ -1,0 +1,22 @@
+// Copyright 2017 The Wuffs Authors.
+//
+// SPDX-License-Identifier: Apache-2.0 OR MIT
+
+//go:build verif
+
+package check
+
+import (
+	a "github.com/google/wuffs/lang/ast"
+)
+
+// VerifFactObserver, if non-nil, is called by the bounds checker before each
+// statement with the facts it holds at that point. It is only compiled in
+// under the "verif" build tag and is used by external verification harnesses.
+var VerifFactObserver func(f *a.Func, stmt *a.Node, facts []*a.Expr)
+
+func verifObserveFacts(q *checker, o *a.Node) {
+	if VerifFactObserver != nil {
+		VerifFactObserver(q.astFunc, o, []*a.Expr(q.facts))
+	}
+}
